@@ -206,7 +206,15 @@ func (s *SencBox) ParseReadBox(perSampleIVSize byte, saiz *SaizBox) error {
 			s.perSampleIVSize = perSampleIVSize
 		}
 
-		s.IVs = make([]InitializationVector, 0, s.SampleCount)
+		if uint64(perSampleIVSize)*uint64(s.SampleCount) > uint64(nrBytesLeft) {
+			return fmt.Errorf("senc: sample count %d with IV size %d does not fit in %d bytes",
+				s.SampleCount, perSampleIVSize, nrBytesLeft)
+		}
+		if perSampleIVSize == 0 {
+			s.IVs = make([]InitializationVector, 0)
+		} else {
+			s.IVs = make([]InitializationVector, 0, s.SampleCount)
+		}
 		switch perSampleIVSize {
 		case 0:
 			// Nothing to do
